@@ -130,7 +130,16 @@ class OracleNodeRng(OracleNode):
         return step_state.replace(rng=jax.random.split(step_state.rng)[0], state=PState(x=res[0])), POutput(y=res[1])
 
 
-def two_node_graph(rate1=10, rate2=20, window12=2, window21=1, trainable=False, ts_max=0.5, num_episodes=1,
+def _ragged(nodes, ts_maxes, seed):
+    """a padded stack of episodes of different length (base.Graph.stack pads the shorter ones with -1 vertices/edges)"""
+    from rex.artificial import generate_graphs
+    from rex.base import Graph as CG
+
+    eps = [generate_graphs(nodes, t, rng=jax.random.PRNGKey(seed + i), num_episodes=1)[0] for i, t in enumerate(ts_maxes)]
+    return CG.stack(eps)
+
+
+def two_node_graph(rate1=10, rate2=20, window12=2, window21=1, trainable=False, ts_max=0.5, num_episodes=1, ragged=None,
                    supergraph=None, node_cls=ProbeNode, tmax=0.06, seed=0, delay1=0.0103, delay2=0.0071, comm=0.0037,
                    tdelay=0.0047, **gkw):
     """node2 -> node1 (supervisor node1), node1 -> node2 (skip)."""
@@ -146,12 +155,12 @@ def two_node_graph(rate1=10, rate2=20, window12=2, window21=1, trainable=False, 
     dd = TrainableDist.create(tdelay, 0.0, tmax) if trainable else Deterministic(comm)
     n1.connect(n2, window=window12, blocking=False, delay_dist=dd, delay=(tdelay if trainable else comm) + 0.00031)  # expected delay != actual: no exact ties
     n2.connect(n1, window=window21, blocking=False, skip=True, delay_dist=Deterministic(comm))
-    cg = generate_graphs(nodes, ts_max, rng=jax.random.PRNGKey(seed), num_episodes=num_episodes)
+    cg = _ragged(nodes, ragged, seed) if ragged else generate_graphs(nodes, ts_max, rng=jax.random.PRNGKey(seed), num_episodes=num_episodes)
     g = Graph(nodes=nodes, supervisor=n1, graphs_raw=cg, supergraph=supergraph or Supergraph.MCS, progress_bar=False, **gkw)
     return nodes, cg, g
 
 
-def three_node_graph(rates=(10, 20, 15), windows=(2, 1, 2), ts_max=0.4, num_episodes=1, supergraph=None,
+def three_node_graph(rates=(10, 20, 15), windows=(2, 1, 2), ts_max=0.4, num_episodes=1, ragged=None, supergraph=None,
                      node_cls=ProbeNode, seed=0, **gkw):
     """sensor(n2) -> agent(n1, supervisor) -> actuator(n3) -> sensor(n2) (skip)"""
     from distrax import Deterministic
@@ -166,7 +175,7 @@ def three_node_graph(rates=(10, 20, 15), windows=(2, 1, 2), ts_max=0.4, num_epis
     n1.connect(n2, window=windows[0], blocking=False, delay_dist=Deterministic(0.004))
     n3.connect(n1, window=windows[1], blocking=False, delay_dist=Deterministic(0.003))
     n2.connect(n3, window=windows[2], blocking=False, skip=True, delay_dist=Deterministic(0.002))
-    cg = generate_graphs(nodes, ts_max, rng=jax.random.PRNGKey(seed), num_episodes=num_episodes)
+    cg = _ragged(nodes, ragged, seed) if ragged else generate_graphs(nodes, ts_max, rng=jax.random.PRNGKey(seed), num_episodes=num_episodes)
     g = Graph(nodes=nodes, supervisor=n1, graphs_raw=cg, supergraph=supergraph or Supergraph.MCS, progress_bar=False, **gkw)
     return nodes, cg, g
 
